@@ -9,36 +9,63 @@ import common, pool, specs, gens, ftdiff, c02, c01, semcheck
 
 
 def dyn_request(case, rec, ex):
-    """single uniform_occupancy level on a contracted rank of a product Einsum: the request for the Lean model of the nest
-    with the dynamic split (Props/C03Nest.dynamic_nest'): unpartitioned Einsum with loop order = outer loops ++ remaining
-    loops, inputs, leader, occupancy, the emitted order of the inner loops"""
+    """product Einsum, shape partitioning on any ranks (static splits) and ONE uniform_occupancy level - the bottom level of
+    its stack - on a contracted rank: the request for the Lean model (Props/C03Static.static_then_dynamic): original
+    Einsum + inputs, the static splits, the loop order after them, the dynamic split"""
     e = case["eins"][0]
     d = rec["yaml"]
     parts = ((d.get("mapping") or {}).get("partitioning") or {}).get(e["out"]) or {}
-    if len(parts) != 1 or len(e["terms"]) != 1 or e["terms"][0]["kind"] != "times":
+    if not parts or len(e["terms"]) != 1 or e["terms"][0]["kind"] != "times":
         return None
-    (K, stack), = parts.items()
-    if len(stack) != 1:
-        return None
-    m = re.fullmatch(r"uniform_occupancy\((\w+)\.(\d+)\)", stack[0])
-    if not m or K in case["decl"][e["out"]]:
-        return None
-    leader, n = m.group(1), int(m.group(2))
+    terms = c01.lean_terms(case, ex)
+    ranks = []
+    for t in terms:
+        for x in t["tensors"]:
+            for r in x["ranks"]:
+                if r not in ranks:
+                    ranks.append(r)
+    for r in case["decl"][e["out"]]:
+        if r not in ranks:
+            ranks.append(r)
     lo = ((d.get("mapping") or {}).get("loop-order") or {}).get(e["out"]) or (pool.loop_ranks(d) or {}).get(e["out"])
-    if lo is None or K + "1" not in lo or K + "0" not in lo:
+    if lo is None:
         return None
-    i1 = lo.index(K + "1")
+    splits, dyn = [], None
+    for K, stack in parts.items():
+        if K not in ranks:
+            return None
+        n = len(stack)
+        shape, occ = stack, None
+        m = re.fullmatch(r"uniform_occupancy\((\w+)\.(\d+)\)", stack[-1])
+        if m:
+            shape, occ = stack[:-1], (m.group(1), int(m.group(2)))
+        sizes = c02.part_sizes(case, shape, case["ext"][K])
+        if sizes is None or any(x <= 0 for x in sizes):
+            return None                                   # occupancy above another level etc.: outside the modelled class
+        cur = K
+        for j, sz in enumerate(sizes):
+            lvl = n - j
+            low = (K + "0") if lvl == 1 else "%s%dI" % (K, lvl - 1)
+            splits.append({"K": cur, "K1": K + str(lvl), "K0": low, "size": sz})
+            cur = low
+        if occ:
+            if dyn is not None or K in case["decl"][e["out"]]:
+                return None
+            dyn = dict(K=cur, K1=K + "1", K0=K + "0", n=occ[1], leader=occ[0])
+    if dyn is None or dyn["K1"] not in lo or dyn["K0"] not in lo:
+        return None
+    i1 = lo.index(dyn["K1"])
     pre, rs2 = lo[:i1], lo[i1:]
-    rsU = [K if r == K + "1" else r for r in rs2 if r != K + "0"]
-    loopU = pre + rsU
-    return {"op": "nest_dyn", "loop": loopU, "exts": [case["ext"][r] for r in loopU], "out_name": e["out"], "out_ranks": list(case["decl"][e["out"]]),
-            "terms": c01.lean_terms(case, ex), "tree": rec["tree"], "npre": len(pre), "K": K, "K1": K + "1", "K0": K + "0", "n": n, "leader": leader, "loop2": rs2}
+    loop1 = pre + [dyn["K"] if r == dyn["K1"] else r for r in rs2 if r != dyn["K0"]]
+    return {"op": "nest_statdyn", "loop": ranks, "exts": [case["ext"][r] for r in ranks], "out_name": e["out"], "out_ranks": list(case["decl"][e["out"]]),
+            "terms": terms, "tree": rec["tree"], "splits": splits, "loop1": loop1, "npre": len(pre), "K": dyn["K"], "K1": dyn["K1"], "K0": dyn["K0"],
+            "n": dyn["n"], "leader": dyn["leader"], "loop2": rs2}
 
 
 def check_model(ctx, recs):
-    """tie of C03.dynamic_nest' to the real compiler: the model nest (outer loops, split of the fibers reached at the
+    """tie of C03.static_then_dynamic to the real compiler: the model nest (outer loops, split of the fibers reached at the
     leader's boundaries, inner loops) has the real program's loop skeleton and computes what the real program computes on the
-    sampled input; the theorem's hypotheses (DynHyps) are decided in Lean for every sample"""
+    sampled input; the theorem's hypotheses (StatDynHyps) are decided in Lean for every sample"""
     reqs, metas = [], []
     for r in recs:
         if not r["ok"] or r["case"] is None or len(r["case"]["eins"]) != 1:
@@ -70,13 +97,13 @@ def check_model(ctx, recs):
         rep = dict(semcheck.base_replay(r, case, ex), real=real, model_run=run_, model_spec=spec_, hyps_ok=a["hyps_ok"],
                    skeleton_expected=a["expected_loops"], skeleton_actual=a.get("actual_loops"))
         if not ok_h:
-            ctx.violation(dict(rep, kind="model-hypotheses", obligation="C03.DynHyps decided on the sampled specification and input",
-                               reason="the hypotheses of C03.dynamic_nest' do not hold for this generated sample (generator or model out of step)"), False)
+            ctx.violation(dict(rep, kind="model-hypotheses", obligation="C03.StatDynHyps decided on the sampled specification and input",
+                               reason="the hypotheses of C03.static_then_dynamic do not hold for this generated sample (generator or model out of step)"), False)
         elif not ok_thm:
-            ctx.violation(dict(rep, kind="model-semantics", obligation="C03.dynamic_nest'", reason="model nest and meaning differ although DynHyps holds"), False)
+            ctx.violation(dict(rep, kind="model-semantics", obligation="C03.static_then_dynamic", reason="model nest and meaning differ although DynHyps holds"), False)
         else:
             verdict_ok, reason, sig = semcheck.verdict(case, ex)
-            ctx.violation(dict(rep, kind="model-correspondence", obligation="model of the nest with a dynamic split (C03.dynamic_nest') = real compiler: loop skeleton and result",
+            ctx.violation(dict(rep, kind="model-correspondence", obligation="model of the nest with a dynamic split (C03.static_then_dynamic) = real compiler: loop skeleton and result",
                                reason="the emitted program no longer matches the model nest (%s)" % ("skeleton" if not skel_ok else "result")), not verdict_ok)
 
 
@@ -98,7 +125,8 @@ def run(ctx):
     n = 2 if ctx.tier == "quick" else 3
     recs = pool.collect(ctx, [dict(gen="g3", count=110 * k, modes=["plain"], nexec=n, reference=True), dict(gen="g3z", count=20 * k, modes=["plain"], nexec=n, reference=True)])
     c02.check_records(ctx, recs)
-    recs2 = pool.collect(ctx, [dict(gen="g3", count=40 * k, modes=["plain"], nexec=n, opts={"variant": "occ"})])
+    recs2 = pool.collect(ctx, [dict(gen="g3", count=30 * k, modes=["plain"], nexec=n, opts={"variant": "occ"}),
+                               dict(gen="g3", count=20 * k, modes=["plain"], nexec=n, opts={"variant": "occ_under_shape"})])
     c02.check_records(ctx, recs2, need_reference=False)
     check_model(ctx, recs + recs2)
 
